@@ -15,6 +15,19 @@ fn filler2(i: usize) -> u8 {
     [b'A', 0xC3, 0xA9, 0xFF, b'z'][i % 5]
 }
 
+/// third instantiation: other ASCII whitespace / control bytes that must be treated as plain data
+/// (only the space separates id and description, only LF / CRLF end lines)
+fn filler3(i: usize) -> u8 {
+    [b'A', b'\t', b'B', 0x0B, 0x0C, b';', b'C'][i % 7]
+}
+
+fn refill3(data: &[u8]) -> Vec<u8> {
+    data.iter()
+        .enumerate()
+        .map(|(i, &b)| if b.is_ascii_uppercase() { filler3(i) } else { b })
+        .collect()
+}
+
 fn refill(data: &[u8]) -> Vec<u8> {
     data.iter()
         .enumerate()
@@ -150,7 +163,7 @@ pub fn c13(tier: Tier) -> i32 {
             names.push(fam.name());
             let t = par_sweep(count, 256, |idx, l| {
                 let base = fam.get(idx);
-                for (variant, data) in [("ascii", base.clone()), ("non-utf8", refill(&base))] {
+                for (variant, data) in [("ascii", base.clone()), ("non-utf8", refill(&base)), ("tab/vt/ff", refill3(&base))] {
                     for cap in capacities(data.len()) {
                         l.evals += 1;
                         let mut problems: Vec<String> = vec![];
@@ -246,7 +259,7 @@ pub fn c13(tier: Tier) -> i32 {
         Report {
             property: "C13".into(),
             tier: tier.name().into(),
-            rule: format!("every record of every input of [{}] in two instantiations of the data class (ASCII; non-UTF-8 / split multi-byte), every capacity 3..len+2 and 64 KiB, obtained via next(), to_owned_record() and read_record_set: algebraic relations between head/seq/seq_lines/num_seq_lines/full_seq/owned_seq/id*/desc* and the owned copies; non-trivial = run with at least one record", names.join("; ")),
+            rule: format!("every record of every input of [{}] in three instantiations of the data class (ASCII letters; non-UTF-8 / split multi-byte; TAB, VT, FF, ';' as data), every capacity 3..len+2 and 64 KiB, obtained via next(), to_owned_record() and read_record_set: algebraic relations between head/seq/seq_lines/num_seq_lines/full_seq/owned_seq/id*/desc* and the owned copies; non-trivial = run with at least one record", names.join("; ")),
             exhaustive: true,
             assumptions: std_assumptions(),
             extra: json!({"states_note": STATES_NOTE}),
